@@ -417,6 +417,13 @@ func convTypeToTarget(source interface{}, target reflect.Type) (interface{}, err
 		switch source.(type) {
 		case int, int32, int64, float32, float64:
 			source, _ = formatInput(source)
+		default:
+			// the other numeric kinds (int16, uint8, uint64, time.Duration, named floats ...) as well:
+			// int16(300) reached an int8 parameter as 44, uint64(1)<<63 an int64 as MinInt64
+			// (not on the way to a string: there a value keeps its own formatting, 1.5µs for a Duration)
+			if n := goNumberOf(source); n != nil && target.Kind() != reflect.String {
+				source = n
+			}
 		}
 	}
 	switch target.Kind() {
@@ -450,6 +457,25 @@ func convTypeToTarget(source interface{}, target reflect.Type) (interface{}, err
 		}
 		return nil, fmt.Errorf("convTypeToTarget %T not conv to %v", source, target)
 	}
+}
+
+// goNumberOf is the number a Go value of any integer or float kind denotes, nil for anything else.
+func goNumberOf(v interface{}) *decimal.Big {
+	if v == nil {
+		return nil
+	}
+	rv := reflect.ValueOf(v)
+	switch rv.Kind() {
+	case reflect.Int, reflect.Int8, reflect.Int16, reflect.Int32, reflect.Int64:
+		return newDecimalBig().SetMantScale(rv.Int(), 0)
+	case reflect.Uint, reflect.Uint8, reflect.Uint16, reflect.Uint32, reflect.Uint64, reflect.Uintptr:
+		return newDecimalBig().SetUint64(rv.Uint())
+	case reflect.Float32, reflect.Float64:
+		n, _ := formatInput(rv.Float())
+		d, _ := n.(*decimal.Big)
+		return d
+	}
+	return nil
 }
 
 var basicNumberKind = []reflect.Kind{reflect.Int8, reflect.Int16, reflect.Int32, reflect.Int64, reflect.Int, reflect.Float32, reflect.Float64}
